@@ -13,6 +13,7 @@ import multiprocessing
 import z3
 
 Z3_TIMEOUT_MS = int(os.environ.get('PYVC_Z3_TIMEOUT_MS', '20000'))
+Z3_RLIMIT = int(os.environ.get('PYVC_Z3_RLIMIT', '40000000'))     # roughly 20-30 s of z3 work
 CVC5_TIMEOUT_MS = int(os.environ.get('PYVC_CVC5_TIMEOUT_MS', '30000'))
 CVC5 = '/usr/bin/cvc5'
 
@@ -28,7 +29,8 @@ def run_cvc5(smt2, timeout_ms=None, produce_models=False):
     """returns 'unsat' | 'sat' | 'unknown' (+ raw output)"""
     timeout_ms = timeout_ms or CVC5_TIMEOUT_MS
     text = smt2
-    text = text.replace('bv2int', 'bv2nat')
+    # z3 5.x prints the SMT-LIB 2.7 names; cvc5 1.0.3 knows the older ones
+    text = text.replace('ubv_to_int', 'bv2nat').replace('bv2int', 'bv2nat').replace('int_to_bv', 'int2bv')
     text = re.sub(r'\(set-info [^\n]*\)\n', '', text)
     text = '(set-logic ALL)\n' + text
     cmd = [CVC5, '--lang=smt2', '--strings-exp', '--tlimit=%d' % timeout_ms]
@@ -50,7 +52,10 @@ def solve_text(smt2, cross_check_all=False):
     info = {'z3': None, 'cvc5': None, 'z3_s': 0.0, 'cvc5_s': 0.0}
     try:
         s = z3.Solver()
-        s.set('timeout', Z3_TIMEOUT_MS)
+        # deterministic resource budget instead of a wall-clock timeout: z3 implements `timeout`
+        # with a timer thread per check (8 MB stack mmap/munmap each: ruinous with 16 processes),
+        # and rlimit makes verdicts independent of machine load
+        s.set('rlimit', Z3_RLIMIT)
         s.from_string(smt2)
         r = s.check()
         info['z3'] = str(r)
